@@ -50,7 +50,9 @@ def _meta_repr(w: World, obj):
         me = obj.meta
     except Exception:  # noqa: BLE001
         return None
-    me_items = tuple(sorted((str(k), repr(v)) for k, v in dict(me).items()))
+    # entries with their validity marks (MetadataStore.invalidate / is_valid are public)
+    keys = sorted({str(k) for k in dict(me)} | {"trace", "cfg", "analysis"})
+    me_items = tuple((k, repr(me.get(k)) if k in me else "<absent>", bool(me.is_valid(k))) for k in keys if k in me or not me.is_valid(k))
     return (tuple(mp.items()), w.ident(mp), me_items, w.ident(me))
 
 
@@ -225,7 +227,12 @@ def snapshot(w: World, *, tensors: bool = True) -> dict:
                 i = done[kind]
                 done[kind] += 1
                 progressed = True
-                out[(kind, i)] = fn(w, lst[i])
+                try:
+                    out[(kind, i)] = fn(w, lst[i])
+                except Exception as e:  # noqa: BLE001
+                    # a public accessor of a reachable object raises (state damaged by a rejected call): that is an
+                    # observable difference, not a harness failure
+                    out[(kind, i)] = (("accessor-raised", type(e).__name__),) + tuple(None for _ in range(len(FIELDS[kind]) - 1))
         if tensors:
             while done["t"] < len(w.tensors):
                 i = done["t"]
